@@ -1,7 +1,7 @@
 """C20 — every failure surfaces as a catchable exception: no terminate, no leak.
 
-(a) Coq: propagation theorems over the Exn language, models of the two scopes whose destructors throw (refuted
-witnesses F17/F18, exact CSV characterisation, repaired MsgPack scope); (b) translator: tools/inventory.py regenerates
+(a) Coq: propagation theorems over the Exn language, models of the two scopes whose destructors call throwing code (CSV:
+refuted witness F18 + exact characterisation; MsgPack: full strength since the repair of F17); (b) translator: tools/inventory.py regenerates
 coq/InvGenerated.v at import time of this module (before `check` builds Properties_C20.vo): T_C20_throwing_dtors pins the
 set of destructors that call possibly-throwing code; (c) correspondence of the two scope models with the library
 (extracted OCaml model vs harness/drv_fault.cpp) and exhaustive fault enumeration (truncation, allocation failure, stream
@@ -14,18 +14,19 @@ EXPLANATION = (
     "partial. Proved (Coq, closed under the global context): in the exception/scope semantics of C++ (destructors run innermost "
     "first on normal and exceptional exit; an exception leaving an implicitly-noexcept destructor calls std::terminate) an exception "
     "thrown by any action at any nesting depth reaches the caller as that exception and the process is never terminated, provided no "
-    "destructor on the way can throw (T_C20_propagation, T_C20_never_terminate, T_C20_err_was_thrown). The property is FALSE of the "
-    "library as it is: T_C20_dtor_terminates_refuted (truncated MsgPack map 81 -> ~CMsgPackReadObjectScope throws while skipping; CSV "
-    "row narrower than the first -> ~CCsvWriteObjectScope -> NextLine throws), with the exact CSV characterisation (T_C20_csv_outside, "
-    "T_C20_csv_width_error_never_surfaces) and the proof that a non-throwing scope destructor repairs the MsgPack case for every input "
-    "(T_C20_msgpack_repaired_*). The two scope models are tied to the code by correspondence (extracted model vs driver on every "
+    "destructor on the way can throw (T_C20_propagation, T_C20_never_terminate, T_C20_err_was_thrown). For the MsgPack map load "
+    "(memory reader, modelled byte subset) this holds at full strength for every input since F17 was repaired in /repo "
+    "(T_C20_msgpack_never_terminates, T_C20_msgpack_propagates, T_C20_msgpack_complete_doc_ok; T_C20_msgpack_unguarded_dtor_terminates "
+    "shows the old destructor violating it). The property is still FALSE of the CSV writer: T_C20_dtor_terminates_refuted (row narrower "
+    "than the first -> ~CCsvWriteObjectScope -> NextLine throws), with the exact characterisation T_C20_csv_outside / "
+    "T_C20_csv_width_error_never_surfaces. The two scope models are tied to the code by correspondence (extracted model vs driver on every "
     "truncation of generated maps and on random row-width lists). The translator (clang AST, regenerated every run) pins the set of "
-    "destructors whose bodies call non-noexcept functions (T_C20_throwing_dtors), so a destructor that starts calling throwing code "
-    "breaks an obligation before a failing input is known. NOT proved, only observed by exhaustive fault injection in child processes "
-    "under ASan+LSan: allocation failure at every operator new, stream failure at every byte, truncation at every length of "
-    "representative documents in all four archives, library-detected mid-save errors; leak freedom; destructibility after failure. "
-    "TERMINATE outcomes explained by the listed known findings (F17, F18) are reported as KNOWN-FINDING; any other TERMINATE, LEAK "
-    "or CRASH is a violation.")
+    "destructors and of noexcept functions whose bodies call possibly-throwing code (T_C20_throwing_dtors, T_C20_noexcept_callers), so a "
+    "destructor that starts calling throwing code breaks an obligation before a failing input is known. NOT proved, only observed by "
+    "exhaustive fault injection in child processes under ASan+LSan: allocation failure at every operator new, stream failure at every "
+    "byte, truncation at every length of representative documents in all four archives, library-detected mid-save errors; leak freedom; "
+    "destructibility after failure. TERMINATE / HANG outcomes explained by the listed known findings (F18, F37, F38, F39) are reported as "
+    "KNOWN-FINDING; any other TERMINATE, HANG, LEAK or CRASH is a violation.")
 TRUSTED_BASE = [
     "Coq 8.16.1 kernel incl. vm_compute; axioms: none (every T_C20_* prints 'Closed under the global context')",
     "modelled, not verified: the C++ rule that an exception leaving a destructor without noexcept(false) calls std::terminate ([except.spec], [except.terminate]) — it is the definition of `close` in coq/InvSpec.v",
@@ -317,6 +318,11 @@ def run(ctx, vlib):
                 diffs.append(dict(driver="fault", case=k["case"], implementation=o, model=k["implementation"], judge="UNKNOWN",
                                   why="the witness of known finding %s no longer reproduces" % k["id"]))
 
+    if (new_dtors or new_noexcept) and not failing:
+        diffs.append(dict(driver="inventory", case="destructor / noexcept inventory of the current sources",
+                          implementation="not in the expected lists: " + "; ".join((new_dtors or []) + (new_noexcept or [])),
+                          model="T_C20_throwing_dtors / T_C20_noexcept_callers", judge="UNKNOWN",
+                          why="a destructor or noexcept function started calling possibly-throwing code; no fault point of the %s enumeration makes it throw" % tier))
     samples = [dict(case=c, implementation=a, model=b) for c, a, b in list(zip(cases, oi, om))[2:5]]
     samples += [dict(case=l, implementation=a) for l, a in list(zip(flines, fo))[:3]]
     if inv is not None:
